@@ -29,6 +29,30 @@ pub fn concretise_src(s: &str) -> String {
     out
 }
 
+/// The model's place-holders stand for CLASSES of characters (what Rust's char predicates say, and the UTF-8 width); a second member
+/// of each class, of the same width: the lexer may not tell them apart.  None when the text has no such place-holder.
+pub fn concretise_alt(s: &str) -> Option<String> {
+    let mut out = String::with_capacity(s.len() + 8);
+    let mut any = false;
+    for c in s.chars() {
+        let alt = match c {
+            '~' => Some('\u{f1}'),     // n with tilde: lower-case letter, 2 bytes
+            '^' => Some('\u{d1}'),     // N with tilde: capital letter, 2 bytes
+            '@' => Some('\u{be}'),     // three quarters: numeric, no digit, 2 bytes
+            '`' => Some('\u{feff}'),   // byte-order mark / zero-width no-break space: no letter, digit, blank or ASCII punctuation, 3 bytes
+            '#' => Some('\u{1f4a9}'),  // another 4-byte symbol
+            '|' => Some('\u{2003}'),   // em space: white space, 3 bytes
+            '\u{c}' => Some('\u{7f}'), // DEL: a control character, 1 byte
+            _ => None,
+        };
+        match alt {
+            Some(a) => { any = true; out.push(a) }
+            None => out.push_str(&concretise_src(&c.to_string())),
+        }
+    }
+    if any { Some(out) } else { None }
+}
+
 pub fn kind_name(t: &TokenType) -> String {
     match t {
         TokenType::StringLiteral(_) => "string".into(),
@@ -59,8 +83,22 @@ pub fn tokens_json(text: &str) -> Vec<J> {
 }
 
 pub fn check_lex(rec: &J) -> Verdict {
-    let src = concretise_src(rec["src"].as_str().unwrap());
-    let got = match catch_unwind(AssertUnwindSafe(|| tokens_json(&src))) {
+    let v = check_lex_as(rec, &concretise_src(rec["src"].as_str().unwrap()));
+    if v.st != "ok" {
+        return v;
+    }
+    // the same text with the other member of each character class
+    if let Some(alt) = concretise_alt(rec["src"].as_str().unwrap()) {
+        let w = check_lex_as(rec, &alt);
+        if w.st != "ok" {
+            return Verdict::viol(format!("{} (with the second member of each character class: {:?})", w.msg, alt), w.obs);
+        }
+    }
+    v
+}
+
+fn check_lex_as(rec: &J, src: &str) -> Verdict {
+    let got = match catch_unwind(AssertUnwindSafe(|| tokens_json(src))) {
         Ok(t) => t,
         Err(p) => return Verdict::viol(format!("lexer panicked: {}", panic_msg(p)), J::Null),
     };
